@@ -814,3 +814,65 @@ Lemma nonvacuous :
   nam Substring [(PLength, VNum 2 0); (PString, VStr [97; 128512; 98]%N); (PStartPosition, VNum (-2) 0)] = Some (VStr [128512; 98]%N) /\
   match pos Mean [VNum 1 0; VNum 2 0] with Some (VNum c e) => ncmp c e 15 (-1) | _ => Lt end = Eq.
 Proof. repeat split; vm_compute; reflexivity. Qed.
+
+(* ---- min / max of strings ---- *)
+Lemma lcmp_le_trans : forall a b c, is_le (lcmp a b) = true -> is_le (lcmp b c) = true -> is_le (lcmp a c) = true.
+Proof.
+  intros a b c H1 H2.
+  destruct (lcmp a b) eqn:E1; try discriminate.
+  - apply lcmp_eq in E1. subst b. exact H2.
+  - destruct (lcmp b c) eqn:E2; try discriminate.
+    + apply lcmp_eq in E2. subst c. rewrite E1. reflexivity.
+    + rewrite (lcmp_trans_lt a b c E1 E2). reflexivity.
+Qed.
+
+Theorem max_strings_spec : forall ss m, exists r,
+  max_str false m (map VStr ss) = VStr r /\ In r (m :: ss) /\ (forall x, In x (m :: ss) -> is_le (lcmp x r) = true).
+Proof.
+  induction ss as [|s ss IH]; intros m.
+  - exists m. cbn. repeat split; auto. intros x [<-|[]]. rewrite lcmp_refl. reflexivity.
+  - cbn [map max_str]. destruct (is_gt (lcmp s m)) eqn:G.
+    + destruct (IH s) as [r (E & Hin & Hb)]. exists r. split; [exact E|]. split.
+      * destruct Hin as [<-|Hin]; [right; left; reflexivity|right; right; exact Hin].
+      * intros x [<-|[<-|Hx]].
+        -- apply (lcmp_le_trans m s r); [|apply Hb; left; reflexivity].
+           rewrite (lcmp_antisym s m). destruct (lcmp s m); try discriminate; reflexivity.
+        -- apply Hb. left. reflexivity.
+        -- apply Hb. right. exact Hx.
+    + destruct (IH m) as [r (E & Hin & Hb)]. exists r. split; [exact E|]. split.
+      * destruct Hin as [<-|Hin]; [left; reflexivity|right; right; exact Hin].
+      * intros x [<-|[<-|Hx]].
+        -- apply Hb. left. reflexivity.
+        -- apply (lcmp_le_trans s m r); [|apply Hb; left; reflexivity].
+           destruct (lcmp s m); try discriminate; reflexivity.
+        -- apply Hb. right. exact Hx.
+Qed.
+
+Theorem min_strings_spec : forall ss m, exists r,
+  min_str m (map VStr ss) = VStr r /\ In r (m :: ss) /\ (forall x, In x (m :: ss) -> is_le (lcmp r x) = true).
+Proof.
+  induction ss as [|s ss IH]; intros m.
+  - exists m. cbn. repeat split; auto. intros x [<-|[]]. rewrite lcmp_refl. reflexivity.
+  - cbn [map min_str]. destruct (is_lt (lcmp s m)) eqn:G.
+    + destruct (IH s) as [r (E & Hin & Hb)]. exists r. split; [exact E|]. split.
+      * destruct Hin as [<-|Hin]; [right; left; reflexivity|right; right; exact Hin].
+      * intros x [<-|[<-|Hx]].
+        -- apply (lcmp_le_trans r s m); [apply Hb; left; reflexivity|].
+           destruct (lcmp s m); try discriminate; reflexivity.
+        -- apply Hb. left. reflexivity.
+        -- apply Hb. right. exact Hx.
+    + destruct (IH m) as [r (E & Hin & Hb)]. exists r. split; [exact E|]. split.
+      * destruct Hin as [<-|Hin]; [left; reflexivity|right; right; exact Hin].
+      * intros x [<-|[<-|Hx]].
+        -- apply Hb. left. reflexivity.
+        -- apply (lcmp_le_trans r m s); [apply Hb; left; reflexivity|].
+           rewrite (lcmp_antisym s m). destruct (lcmp s m); try discriminate; reflexivity.
+        -- apply Hb. right. exact Hx.
+Qed.
+
+(* min / max dispatch on the kind of the first item; a list that starts with anything else is outside the domain *)
+Theorem min_max_dispatch : forall c e s r,
+  b_max false (VNum c e :: r) = max_num false (c, e) r /\ b_max false (VStr s :: r) = max_str false s r /\
+  b_min (VNum c e :: r) = min_num (c, e) r /\ b_min (VStr s :: r) = min_str s r /\
+  b_max false (VNull :: r) = VNull /\ b_min (VNull :: r) = VNull /\ b_max false (VBool true :: r) = VNull /\ b_min (VBool true :: r) = VNull.
+Proof. intros. repeat split; reflexivity. Qed.
